@@ -1,6 +1,7 @@
 package main
 
 import (
+	"regexp"
 	"fmt"
 	"go/ast"
 	"go/token"
@@ -20,6 +21,27 @@ import (
 // state spaces are built from exactly these; a new field (a cache, a counter, a semaphore, a second lock) is
 // state the models do not have.
 func stateFacts(s *src, f *facts) {
+	// type aliases (`type X = …`) are spelled out, so that introducing one for a long type changes nothing
+	aliases := map[string]string{}
+	for _, file := range s.files {
+		for _, d := range file.Decls {
+			if gd, ok := d.(*ast.GenDecl); ok {
+				for _, sp := range gd.Specs {
+					if ts, ok := sp.(*ast.TypeSpec); ok && ts.Assign.IsValid() {
+						aliases[ts.Name.Name] = strings.Join(strings.Fields(s.str(ts.Type)), " ")
+					}
+				}
+			}
+		}
+	}
+	expand := func(t string) string {
+		for i := 0; i < 3; i++ {
+			for name, def := range aliases {
+				t = regexp.MustCompile(`\b`+regexp.QuoteMeta(name)+`\b`).ReplaceAllString(t, def)
+			}
+		}
+		return t
+	}
 	for _, st := range []struct{ fact, name string }{
 		{"stateRegistry", "Registry"}, {"stateClosureManager", "closureManager"},
 		{"stateBroadcaster", "Broadcaster"}, {"stateChannel", "channelWithContext"}, {"stateWrappedChild", "wrappedChild"},
@@ -32,7 +54,7 @@ func stateFacts(s *src, f *facts) {
 					n = 1
 				}
 				for i := 0; i < n; i++ {
-					tys = append(tys, strings.Join(strings.Fields(s.str(fl.Type)), " "))
+					tys = append(tys, expand(strings.Join(strings.Fields(s.str(fl.Type)), " ")))
 				}
 			}
 		}
